@@ -169,6 +169,9 @@ def d5(rep):
                 a, b = out.get(k, (lo, hi))
                 out[k] = (min(a, lo), max(b, hi))
         return out
+    bulk = [c.get("callee") for c in calls(f.func("libNewHeader")["body"]) if c.get("callee") in ("memset", "bzero", "memcpy", "stoClear")]
+    if bulk:
+        raise AnalysisBroken("libNewHeader now initialises with %s: field-by-field coverage does not apply" % bulk[0])
     init = table_fields(f.func("libNewHeader"), True)
     put = table_fields(f.func("libPutHeader"), False)
     if len(put) < 3:
